@@ -1,5 +1,6 @@
 import Skglm.Spec.Penalties
 import Skglm.Proofs.Prox
+import Skglm.Proofs.BlockProx
 /-
   C07 — proximal operators return a global minimiser of the prox objective.
 
@@ -44,6 +45,42 @@ theorem prox_pos (wt x s : ℝ) (h : Admissible (.pos) wt s) (v : ℝ) :
 theorem prox_mcp_range_sharp :
     ∃ a g x s v : ℝ, 0 < s ∧ 0 < g ∧ g ≤ s ∧
       ¬ ProxLe (.mcp a g false) 1 x s ((SepPen.mcp a g false).prox1 1 x s) v := Proofs.prox_mcp_range_sharp
+
+/-! ### group / row proxes: global minimisers over `Fin k → ℝ` for every block size `k` -/
+
+/-- block soft-thresholding is the prox of `u‖·‖₂` -/
+theorem prox_block_soft_threshold {k : Nat} (x v : Fin k → ℝ) (u : ℝ) (hu : 0 ≤ u) :
+    Proofs.halfSq x (BST0 x u) + u * norm2 (BST0 x u) ≤ Proofs.halfSq x v + u * norm2 v :=
+  Proofs.BST0_prox x v u hu
+
+/-- group lasso with group weight, both positivity settings (feasible result, optimal among feasible `v`) -/
+theorem prox_group_lasso {k : Nat} (a wg s : ℝ) (pos : Bool) (wf x v : Fin k → ℝ) (ha : 0 ≤ a) (hwg : 0 ≤ wg)
+    (hs : 0 < s) (hv : pos = true → ∀ i, 0 ≤ v i) :
+    let r := (BlkPen.wgl2 a pos).proxBlk wg wf x s
+    (pos = true → ∀ i, 0 ≤ r i) ∧
+    Proofs.halfSq x r + s * (a * wg * norm2 r) ≤ Proofs.halfSq x v + s * (a * wg * norm2 v) :=
+  Proofs.prox_wgl2 a wg s pos wf x v ha hwg hs hv
+
+/-- L2/1 row penalty -/
+theorem prox_l21 {k : Nat} (a s : ℝ) (wf x v : Fin k → ℝ) (ha : 0 ≤ a) (hs : 0 < s) :
+    let r := (BlkPen.l21 a).proxBlk 1 wf x s
+    Proofs.halfSq x r + s * (a * norm2 r) ≤ Proofs.halfSq x v + s * (a * norm2 v) :=
+  Proofs.prox_l21 a s wf x v ha hs
+
+/-- sparse group lasso, with the weights of the group's own features -/
+theorem prox_sparse_group_lasso {k : Nat} (a wg s : ℝ) (wf x v : Fin k → ℝ) (ha : 0 ≤ a) (hwg : 0 ≤ wg)
+    (hs : 0 < s) (hwf : ∀ i, 0 ≤ wf i) :
+    let r := (BlkPen.wl1gl2 a).proxBlk wg wf x s
+    Proofs.halfSq x r + s * (a * (wg * norm2 r + ∑ i, wf i * |r i|)) ≤
+      Proofs.halfSq x v + s * (a * (wg * norm2 v + ∑ i, wf i * |v i|)) :=
+  Proofs.prox_wl1gl2 a wg s wf x v ha hwg hs hwf
+
+/-- block MCP inside its well-posed range, zero row included -/
+theorem prox_block_mcp {k : Nat} (a g s : ℝ) (wf x v : Fin k → ℝ) (ha : 0 ≤ a) (hg : 0 < g) (hs : 0 < s)
+    (hsg : s < g) :
+    let r := (BlkPen.bmcp a g).proxBlk 1 wf x s
+    Proofs.halfSq x r + s * Spec.mcp a g (norm2 r) ≤ Proofs.halfSq x v + s * Spec.mcp a g (norm2 v) :=
+  Proofs.prox_bmcp a g s wf x v ha hg hs hsg
 
 /-- non-vacuity: a concrete admissible MCP configuration with a non-trivial prox value -/
 example : Admissible (.mcp (1:ℝ) 3 false) 1 1 ∧ (SepPen.mcp (1:ℝ) 3 false).prox1 1 2 1 = 3 / 2 := by
